@@ -48,13 +48,13 @@ THEOREMS = [
 LEAN_MODULE_EXTRA = ['CC.Properties.C09Line']
 OPEN_STATEMENTS = [
     'CC.C09_once_statement (false after fix 6e56e9e for chains of frequencies: C09_once_counterexample)',
-    'the spectral line at w_k is the peak phasor of C02 at w_k: PROVED for the model (C09_line_phasor, C09_line_phasor_td, C09_line_td_eq_fd, C09_line_frequencies, C09_line_two_sided, C09_line_circuit_eqs); what stays open: fdSolutions / tdSolutions / fdLines / tdLines / fdGet / tdValue of CC/Properties/C09Line.lean are hand transcriptions of __post_init__ / get_* of solution.py:88-150 composed of the model functions transform, cxNet, cxGet, Net.quantity, series, timeValue with the solver as a parameter — no translator regenerates them and no driver op compares them as a whole (their parts are compared by cc_transform, cc_solution, time_value, two_sided; the oracle compares the implementation\'s lines with ComplexSolution directly)',
+    'the spectral line at w_k is the peak phasor of C02 at w_k: PROVED for the model (C09_line_phasor, C09_line_phasor_td, C09_line_td_eq_fd, C09_line_frequencies, C09_line_two_sided, C09_line_circuit_eqs) about fdSolutions / tdSolutions / fdLines / tdLines / fdGet / tdValue of CC/Properties/C09Line.lean, which are now TIED to the source: __post_init__, _series and the getters of TimeDomainSolution / FrequencyDomainSolution are translated statement by statement into Gen.Sol.methodTable and the transcriptions are proved to be exactly the reading of those trees (C09_gen_td_post_init, C09_gen_fd_post_init, C09_gen_td_getters, C09_gen_fd_series, C09_gen_fd_getters; CC/Properties/C09SolGen.lean); what stays open: the reading itself (CC/Model/SolutionEval.lean: evalP / runMethod / closureAt) is hand-written and trusted — in particular closureAt recognises the Fourier synthesis sum as a whole and reads np.abs(X)*np.cos(w*t+np.angle(X)) as lineValue (identity over C: C09_time_function); the identifier guards are not read there (requireTable, C19); get_power of either class is tied only as a literal tree (C09_gen_getters_shape) and by the generated formulas td_get_power / cx_get_power; fc / C are two readings of one circuit (FComp vs Component) joined by the correspondence check, not by a theorem; solver exceptions are not modelled',
     "reproduction of a periodic source's waveform up to the truncation of the retained harmonics: PROVED in two layers — model (C09_periodic_frequencies, C09_periodic_own_line[_current], C09_periodic_time_value: an ideal periodic voltage source's own voltage is the sum of the lines amplitude(k)(cos phase(k) + j sin phase(k)), k = 0..floor(w_max/w0), = sum of a_k c_k + b_k s_k) and reals (C09_truncated_fourier: that sum is the truncated Fourier series of C08 for every t and N; C09_reconstruction_mean_square: it converges to the waveform in the mean square, via C08_mean_square); what stays open: the two layers are joined by the parameter convention of C07/C08 (trig, harm = numpy's cos/sin and fourier_series.amplitude/phase), not by a theorem; no bound for a fixed N (only convergence, the Parseval tail is the oracle's); C09_periodic_time_value assumes the analysed frequencies are exactly harmonicList (one periodic source, w_res < w0) and an ideal source (R = 0); binary64 rounding: oracle only",
     'superposition of sources for the networks the code builds for each source alone: C09_superpose_sources_reported (potentials, voltages) and C09_superpose_sources_currents (physical currents of every branch; reported currents of branches that are no lossy source in any of the three networks) still assume the per-frequency networks in skeleton form withSrc bs s; reported currents of lossy sources do NOT superpose (direction convention changes when the source is deactivated — C04_superpose excludes them, finding C09-4)',
 ]
 ASSUMPTIONS = [
     'C09_line, C09_kcl_instant, C09_superpose_sources and C09_source_reconstruction are identities without a model term; the statements about the code are C09_freqs_*, C09_once_*, C09_two_sided*, C09_kcl_instant_circuit, C09_superpose_sources_reported and the round-5 theorems C09_line_*, C09_periodic_*, C09_superpose_sources_currents (CC/Properties/C09Line.lean); C09_truncated_fourier and C09_reconstruction_mean_square are statements over the reals about the generated Fourier coefficients',
-    'C09_line_* are about the transcriptions fdSolutions / tdSolutions / fdLines / tdLines / fdGet / tdValue of solution.py (hand-written from existing model functions, solver = arbitrary function Net -> vector; solver exceptions are not modelled)',
+    'C09_line_* are about the transcriptions fdSolutions / tdSolutions / fdLines / tdLines / fdGet / tdValue of solution.py (hand-written from existing model functions, solver = arbitrary function Net -> vector; solver exceptions are not modelled); C09_gen_td_post_init / C09_gen_fd_post_init / C09_gen_td_getters / C09_gen_fd_series / C09_gen_fd_getters prove them equal to the reading (CC/Model/SolutionEval.lean, trusted) of the method trees generated from the source',
     'cos, sin, abs, angle of numpy are parameters: the model evaluates a line from c = cos(w t), s = sin(w t) computed by numpy; C09_time_function proves |X|cos(wt + arg X) = X.re·c − X.im·s over the complex numbers',
     'the per-frequency networks are the implementation\'s own transform outputs (C02/C07), their solutions the solver\'s (C01)',
     'binary64 products k·w0 are exact in the exact tier (dyadic w0); floor(w_max/w0) cases where float and exact floor differ are skipped as tie margin',
@@ -63,6 +63,11 @@ ASSUMPTIONS = [
 # proofs CC/Properties/C09Gen.lean): generated function = hand model frequencyComponents, for all inputs
 THEOREMS += ['CC.C09_gen_frequency_components', 'CC.C09_gen_freqs', 'CC.C09_gen_default_resolution']
 LEAN_MODULE_EXTRA = list(globals().get('LEAN_MODULE_EXTRA', [])) + ['CC.Properties.C09Gen']
+# translator tie of TimeDomainSolution / FrequencyDomainSolution (__post_init__, _series, getters): harness/extract_solution.py -> Gen.Sol.methodTable,
+# reading CC/Model/SolutionEval.lean part (A), proofs CC/Properties/C09SolGen.lean: the hand transcriptions of C09Line.lean = the reading of the generated trees
+THEOREMS += ['CC.C09_gen_td_init_shape', 'CC.C09_gen_fd_init_shape', 'CC.C09_gen_series_shape', 'CC.C09_gen_getters_shape',
+             'CC.C09_gen_td_post_init', 'CC.C09_gen_fd_post_init', 'CC.C09_gen_td_getters', 'CC.C09_gen_fd_series', 'CC.C09_gen_fd_getters']
+LEAN_MODULE_EXTRA = list(globals().get('LEAN_MODULE_EXTRA', [])) + ['CC.Properties.C09SolGen']
 ASSUMPTIONS += [
     'C09_gen_frequency_components ties the hand model frequencyComponents to the source text of frequency_components through the translator (expressions node by node, statement skeleton matched structurally, anything else refused); trusted: the idioms of CC/Model/FreqBase.lean (npFloor, npCeil, npArange, pyLast, pyFlatMapM, pyForM), sortQ for sorted, FComp as the reading of a component (type, float(value[\'w\']) or KeyError), exact rationals for binary64 (np.floor of a rounded quotient and the products w*n: tie margin, correspondence stream check_freqs)',
 ]
